@@ -78,7 +78,7 @@ pub fn register_builtin_tools(registry: &ToolRegistry, config: BuiltinToolConfig
     );
 
     let write_config = config.clone();
-    registry.register(
+    registry.register_uninterruptible(
         "write",
         std::sync::Arc::new(move |invocation| {
             let cfg = write_config.clone();
@@ -91,7 +91,7 @@ pub fn register_builtin_tools(registry: &ToolRegistry, config: BuiltinToolConfig
     );
 
     let patch_config = config.clone();
-    registry.register(
+    registry.register_uninterruptible(
         "apply_patch",
         std::sync::Arc::new(move |invocation| {
             let cfg = patch_config.clone();
